@@ -215,6 +215,7 @@ def _reapply_behaviour(ctx):
 
 def _call_sites(ctx):
     ix = ctx.index
+    S = ix.cls("fdtdx.objects.object.SimulationObject")
     mi = ix.module("fdtdx.fdtd.initialization")
     sites = []
     for fn_name in ("place_objects", "apply_params"):
@@ -224,7 +225,9 @@ def _call_sites(ctx):
         ctx.unit(fi.where())
         for node in ast.walk(fi.node):
             if isinstance(node, ast.If):
-                calls = [c for c in find_nodes(node.test, ast.Call) if isinstance(c.func, ast.Attribute) and c.func.attr == "check_overlap"]
+                # the gate: a one-argument predicate of SimulationObject (check_overlap today; R29.3 decides what it
+                # computes, so the name is not frozen) asked inside the test
+                calls = [c for c in find_nodes(node.test, ast.Call) if isinstance(c.func, ast.Attribute) and len(c.args) == 1 and not c.keywords and S.lookup_method(c.func.attr) is not None]
                 if calls:
                     sites.append((fn_name, fi, node, calls[0]))
     ctx.require_count("R29.2 call sites", len(sites), 2)
@@ -251,7 +254,7 @@ def _call_sites(ctx):
             "R29.2",
             f"fdtdx.fdtd.initialization.{fn_name}:overlap-gate",
             is_any and negated == want_neg and recv_is_device and arg_is_obj and applies,
-            ("place_objects applies an object iff NOT any(device.check_overlap(obj))" if want_neg else "apply_params re-applies an object iff any(device.check_overlap(obj))"),
+            ("place_objects applies an object iff NOT any(device.<overlap predicate>(obj))" if want_neg else "apply_params re-applies an object iff any(device.<overlap predicate>(obj))"),
             ast.unparse(test)[:200],
             ("not any(d.check_overlap(obj) for d in devices)" if want_neg else "any(d.check_overlap(obj) for d in devices)"),
         )
